@@ -86,6 +86,8 @@ def run(ck, facts):
     ck.rule("R3", "HIR-data-dependent unwrap/expect sites in the backends equal the triaged inventory (assumptions about the HIR's shape must be visible)")
     ck.rule("R5", "producer/consumer agreement for the JS allocator: generate_method supplies an allocator for every parameter type whose conversion arm unwraps one "
                   "(struct, DiplomatOption under the spec ABI; slices take the other branch); lifetime indices are looked up in the environment they index (shares C04.R6)")
+    ck.rule("R6", "`.first()/.last().unwrap()` on a field list is protected by a length test that really excludes the empty list (evaluated for lengths 0..3), in the function itself or in the "
+                  "predicate function that guards it; Dart's allocator lookup sees through DiplomatOption like the conversions that unwrap its result")
     ck.rule("R4", "producer/consumer agreement for optional template data: nanobind computes parameter declarations for every type kind whose templates unwrap them")
     ck.not_decided += ["index/slice panics and arithmetic overflow", "panics selected by identifier values rather than shapes (reserved type names, duplicate file names)"]
 
@@ -300,3 +302,78 @@ def run(ck, facts):
     import c04
     sub = C.SubCheck(ck, "R5", "", ["R6"])
     c04.run(sub, facts)
+
+
+    # ---------------- R6 length guards of first()/last() unwraps
+    import exprval
+
+    def len_conditions(fn):
+        """(cond node, diverging?) for every `if` in fn whose condition speaks about `.len()` / `.is_empty()`"""
+        out = []
+        for x in C.walk(C.fn_body(fn)):
+            if x.get("k") == "if" and any(y.get("k") == "mcall" and y.get("m") in ("len", "is_empty") for y in C.walk(x["c"])):
+                out.append((x["c"], C.diverges(x["t"]) or any(y.get("k") in ("ret", "continue", "break") for y in C.walk(x["t"]))))
+        return out
+
+    def excludes_empty(conds):
+        """does some early-exit condition hold for length 0 (so the code after it never sees an empty list)?"""
+        for c, div in conds:
+            if not div:
+                continue
+            try:
+                if exprval.bev(c, {"len": 0}):
+                    return True
+            except exprval.Unknown:
+                continue
+        return False
+    n6 = 0
+    for f in tool.fn_list:
+        if "hir" not in f or f.get("exp") or f.get("dk") == "Closure":
+            continue
+        sites = [n for n in C.walk(C.fn_body(f)) if n.get("k") == "mcall" and n.get("m") in ("unwrap", "expect") and C.strip(n["recv"]).get("k") == "mcall"
+                 and C.strip(n["recv"]).get("m") in ("first", "last") and "[" in (C.strip(n["recv"]).get("rty") or "")]
+        if not sites:
+            continue
+        fkey = C.norm_path(f["path"]).replace("diplomat_tool::", "")
+        conds = len_conditions(f)
+        if conds:
+            n6 += 1
+            ck.expect(excludes_empty(conds), "R6", "%s/len-guard" % fkey, "early exit for the empty list",
+                      "`%s().unwrap()` follows a length test that lets the empty list through (the test was weakened): a zero-field struct reaches the unwrap and the tool panics" % C.strip(sites[0]["recv"]).get("m"), C.loc(f, sites[0].get("ln")))
+            continue
+        # guarded by a predicate function called in this function (match guard / if condition)
+        preds = []
+        for x in C.walk(C.fn_body(f)):
+            if x.get("k") in ("call", "mcall"):
+                p_ = C.norm_path(x.get("p") or C.callee(x) or "")
+                cal = tool.norm.get(p_)
+                if cal and "hir" in cal and cal is not f and (cal.get("output") == "bool") and len_conditions(cal):
+                    preds.append(cal)
+        for cal in {c_["path"]: c_ for c_ in preds}.values():
+            n6 += 1
+            ck.expect(excludes_empty(len_conditions(cal)), "R6", "%s/guarded-by/%s" % (fkey, cal["path"].split("::")[-1]), "predicate excludes the empty list",
+                      "`%s` guards a first()/last().unwrap() in %s but no longer returns early for an empty list" % (cal["path"].split("::")[-1], fkey), C.loc(cal))
+    if n6 < 2:
+        ck.bad("R6", "floor", "only %d guarded first()/last() unwrap sites found (2 counted)" % n6)
+    # Dart: the allocator lookup recurses into DiplomatOption
+    dg = tool.fn("dart::TyGenContext::gen_method_info")
+    an = [x for x in tool.fn_list if x["path"].endswith("::alloc_name") and "::dart::" in x["path"] and "gen_method_info" in x["path"] and "hir" in x]
+    an = an or [x for x in tool.fn_list if x["path"].endswith("::alloc_name") and "::dart::" in x["path"] and "hir" in x]
+    ok_rec = False
+    for a_ in an:
+        for x in C.walk(C.fn_body(a_)):
+            pats = []
+            if x.get("k") == "if":
+                pats = [y["pat"] for y in C.walk(x["c"]) if y.get("k") == "let" and isinstance(y.get("pat"), dict)]
+                body_ = x["t"]
+            elif x.get("k") == "match":
+                pats = []
+                for arm in x["arms"]:
+                    if (arm["pat"].get("v") or "").split("::")[-1] == "DiplomatOption" and any(z.get("k") == "call" and (C.callee(z) or "").endswith("alloc_name") for z in C.walk(arm["b"])):
+                        ok_rec = True
+                continue
+            for p_ in pats:
+                if (p_.get("v") or "").split("::")[-1] == "DiplomatOption" and any(z.get("k") == "call" and (C.callee(z) or "").endswith("alloc_name") for z in C.walk(body_)):
+                    ok_rec = True
+    ck.expect(bool(an) and ok_rec, "R6", "dart::alloc_name/sees-through-option", "DiplomatOption(inner) -> alloc_name(inner)",
+              "Dart's allocator lookup for method parameters no longer recurses into DiplomatOption: Option<struct> / Option<slice> parameters reach `unwrap()` / `need allocator for slice` with None", C.loc(an[0]) if an else C.loc(dg))
